@@ -176,6 +176,7 @@ const (
 	EvReadCache
 	EvReadRemote
 	EvWriteCache
+	EvYield // release of a pause inside checkTrees (Site 1) / checkRecord (Site 0)
 )
 
 type ConcEvent struct {
@@ -185,6 +186,7 @@ type ConcEvent struct {
 	A    *ConcHead `json:"a,omitempty"` // value read / old / head of the record
 	B    *ConcHead `json:"b,omitempty"` // new (WriteConfig)
 	OK   bool      `json:"ok,omitempty"`
+	Site int       `json:"site,omitempty"`
 }
 
 func (e ConcEvent) String() string {
@@ -203,6 +205,8 @@ func (e ConcEvent) String() string {
 		return fmt.Sprintf("t%d:ReadRemote=%v", e.Tid, e.A)
 	case EvWriteCache:
 		return fmt.Sprintf("t%d:WriteCache(%v)", e.Tid, e.A)
+	case EvYield:
+		return fmt.Sprintf("t%d:resume(%s)", e.Tid, []string{"checkRecord", "checkTrees"}[e.Site])
 	}
 	return "?"
 }
@@ -224,12 +228,15 @@ type ConcSched struct {
 	fin     []bool
 	finAt   []int // number of released calls when the thread was seen finished
 	ops     []int // scheduled calls per thread
+	yield   []int // pauses a thread may still take before its next scheduled call
+	yieldN  []int // what yield is reset to when a scheduled call of the thread is released
 	stray   int   // scheduled-kind calls from goroutines that are not lookup threads
 }
 
 func newConcSched(n int) *ConcSched {
 	return &ConcSched{n: n, goid: make([]int64, n), byGoid: map[int64]int{}, pend: make([]*concPend, n),
-		started: make([]bool, n), fin: make([]bool, n), finAt: make([]int, n), ops: make([]int, n)}
+		started: make([]bool, n), fin: make([]bool, n), finAt: make([]int, n), ops: make([]int, n),
+		yield: make([]int, n), yieldN: make([]int, n)}
 }
 
 func curGoid() int64 {
@@ -293,6 +300,39 @@ func (s *ConcSched) arrive(kind int) int {
 	s.mu.Unlock()
 	<-p.ch
 	return tid
+}
+
+// pause parks the calling lookup goroutine when it is saving verified tiles inside
+// checkTrees or checkRecord and still has a pause left; it returns the thread and site
+// (tid -1: not paused).
+func (s *ConcSched) pause() (int, int) {
+	g := curGoid()
+	s.mu.Lock()
+	tid, ok := s.byGoid[g]
+	if !ok || s.yield[tid] <= 0 {
+		s.mu.Unlock()
+		return -1, 0
+	}
+	s.mu.Unlock()
+	buf := make([]byte, 8192)
+	buf = buf[:runtime.Stack(buf, false)]
+	site := -1
+	switch {
+	case bytes.Contains(buf, []byte("sumdb.(*Client).checkRecord(")):
+		site = 0
+	case bytes.Contains(buf, []byte("sumdb.(*Client).checkTrees(")):
+		site = 1
+	}
+	if site < 0 {
+		return -1, 0
+	}
+	s.mu.Lock()
+	s.yield[tid]--
+	p := &concPend{kind: EvYield, ch: make(chan struct{})}
+	s.pend[tid] = p
+	s.mu.Unlock()
+	<-p.ch
+	return tid, site
 }
 
 // quiescent waits until no lookup goroutine can move without a release.
@@ -465,8 +505,12 @@ func (o *ConcOps) ReadRemote(path string) ([]byte, error) {
 func (o *ConcOps) WriteCache(file string, data []byte) {
 	o.count()
 	if !isLookupFile(file) {
+		tid, site := o.S.pause()
 		o.W.Mu.Lock()
 		defer o.W.Mu.Unlock()
+		if tid >= 0 {
+			o.W.Trace = append(o.W.Trace, ConcEvent{Kind: EvYield, Tid: tid, Site: site})
+		}
 		o.W.TileOps++
 		o.W.Cache[file] = append([]byte(nil), data...)
 		return
@@ -501,6 +545,7 @@ type ConcLookup struct {
 	Client int    `json:"c"`
 	Path   string `json:"p"`
 	Vers   string `json:"v"`
+	Yield  int    `json:"yield,omitempty"` // pauses inside checkTrees/checkRecord allowed between two calls
 }
 
 // Chooser picks one of n enabled actions at every scheduling point.
@@ -556,6 +601,7 @@ func RunConc(w *ConcWorld, clients []ConcClientSpec, lookups []ConcLookup, growB
 	start := func(t int) {
 		s.mu.Lock()
 		s.started[t] = true
+		s.yield[t], s.yieldN[t] = lookups[t].Yield, lookups[t].Yield
 		s.mu.Unlock()
 		go func() {
 			g := curGoid()
@@ -641,6 +687,9 @@ func RunConc(w *ConcWorld, clients []ConcClientSpec, lookups []ConcLookup, growB
 			p := s.pend[c.Tid]
 			s.pend[c.Tid] = nil
 			released++
+			if p.kind != EvYield {
+				s.yield[c.Tid] = s.yieldN[c.Tid]
+			}
 			s.mu.Unlock()
 			close(p.ch)
 		}
